@@ -80,6 +80,44 @@ pub fn dispatch(op: &str, a: &[Term]) -> Option<Term> {
             let v = json(&out);
             tl(vec![jint(&v["content"]), tl(v["factors"].as_array().unwrap().iter().map(|f| tl(vec![jpoly(&f["factor_vec"]), jint(&f["e"])])).collect())])
         }
+        // the printed form of each factor next to its coefficient vector: [[factor_str factor_vec e] ...] (factor_str as a list of
+        // character codes, so that the term syntax carries it unchanged)
+        "cli_factor_poly_str" => {
+            let (ok, out) = run_main(&format!("input:\n  polynomials: [{}]\nto_find: [factorization]\n", poly_json(&a[0])));
+            if !ok { return Some(crashed()); }
+            let v = json(&out);
+            tl(v["factors"].as_array().unwrap().iter().map(|f| tl(vec![
+                tl(f["factor_str"].as_str().unwrap_or("?").bytes().map(|b| ti(b as u64)).collect()), jpoly(&f["factor_vec"]), jint(&f["e"])])).collect())
+        }
+        // several commands in one configuration: for each command, does the document printed in the combined run equal (as JSON,
+        // arrays compared as multisets) the document printed when the command runs alone?  cli_seq kind poly primes [cmd ...]
+        // with kind = poly | pp and cmd in fz (factorization), disc, ib (integral_basis), fmp (factorization-mod-p), pd
+        "cli_seq" => {
+            fn canon(v: &Value) -> Value {
+                match v {
+                    Value::Array(xs) => { let mut ys: Vec<Value> = xs.iter().map(canon).collect(); ys.sort_by_key(|y| y.to_string()); Value::Array(ys) }
+                    Value::Object(m) => Value::Object(m.iter().map(|(k, x)| (k.clone(), canon(x))).collect()),
+                    _ => v.clone(),
+                }
+            }
+            let name = |c: &str| match c { "fz" => "factorization", "disc" => "discriminant", "ib" => "integral_basis", "fmp" => "factorization-mod-p",
+                                           "pd" => "prime-decomposition", _ => panic!("harness: unknown command {c}") };
+            let input = if a[0].id() == "poly" { format!("input:\n  polynomials: [{}]\n", poly_json(&a[1])) } else {
+                let ps: Vec<String> = a[2].ints().iter().map(|p| format!("\"{p}\"")).collect();
+                format!("input:\n  polynomial_and_primes:\n    polynomial: {}\n    primes: [{}]\n", poly_json(&a[1]), ps.join(", ")) };
+            let cmds: Vec<String> = a[3].list().iter().map(|t| name(&t.id()).to_string()).collect();
+            let docs = |out: &str| -> Vec<Value> { serde_json::Deserializer::from_str(out).into_iter::<Value>().filter_map(|r| r.ok()).map(|v| canon(&v)).collect() };
+            let (ok, all) = run_main(&format!("{}to_find: [{}]\n", input, cmds.join(", ")));
+            if !ok { return Some(crashed()); }
+            let all = docs(&all);
+            let mut res = vec![ti(all.len() as u64)];
+            for (i, c) in cmds.iter().enumerate() {
+                let (ok1, one) = run_main(&format!("{}to_find: [{}]\n", input, c));
+                let one = docs(&one);
+                res.push(tbool(ok1 && one.len() == 1 && all.get(i) == one.first()));
+            }
+            tl(res)
+        }
         "cli_factor_mod_p" => {
             let (ok, out) = run_main(&format!("input:\n  polynomial_and_primes:\n    polynomial: {}\n    primes: [\"{}\"]\nto_find: [factorization-mod-p]\n", poly_json(&a[0]), a[1].int()));
             if !ok { return Some(crashed()); }
